@@ -111,6 +111,9 @@ def check(ctx):
     ctx.note("functions_proved_to_return_fresh", sum(1 for v in summ.ret.values() if v == fresh.FRESH))
 
     check_memo(ctx, repo, cg, "C04-R2")
+    # the per-node compile memo is only tolerable on throw-away nodes: call() re-wraps every function node (shared with C03-R6 / C05-R7)
+    from . import c05
+    c05.check_rewrap(ctx, repo, "C04-R2")
     check_dict_literal(ctx, repo, "C04-R3")
 
 
